@@ -103,15 +103,15 @@ class EulerIntegrator:
         # perform the integration over the level sets
         a = 0
         for l in range(maxHeight):
+            # form the level set of points higher than this level
+            levelSet = self.levelSet(levelSet, l)
+
             # compute the Euler characteristic of the level set
             chi = levelSet.eulerCharacteristic()
             #print('level {level}, chi = {chi}'.format(level = l, chi = chi))
 
             # add to the integral
             a += chi
-
-            # form the next level set from this one
-            levelSet = self.levelSet(levelSet, l)
 
         # return the accumulated integral
         return a
